@@ -13,6 +13,7 @@ import (
 	"bytes"
 	"fmt"
 	"go/ast"
+	"go/parser"
 	"go/printer"
 	"go/token"
 	"go/types"
@@ -375,11 +376,59 @@ func RoundKeep(p *load.Program, name func(*ssa.Function) string, overlay map[str
 		for _, ed := range eds {
 			b = append(b[:ed.start], append([]byte(ed.text), b[ed.end:]...)...)
 		}
-		res.Overlay[file] = b
+		res.Overlay[file] = pruneUnusedImports(file, b)
 	}
 	sort.Strings(res.Inlined)
 	sort.Strings(res.Skipped)
 	return res
+}
+
+// pruneUnusedImports drops import specs whose package name no longer occurs as a qualifier in the file
+// (a helper that was the only user of the import has been inlined elsewhere, or its body landed here
+// without the part of its signature that needed it). Syntactic: a name is "used" if `name.` occurs as a
+// selector base anywhere; blank and dot imports are left alone. On a parse error the text is returned as is.
+func pruneUnusedImports(file string, b []byte) []byte {
+	fset := token.NewFileSet()
+	f, err := parser.ParseFile(fset, file, b, parser.ParseComments)
+	if err != nil {
+		return b
+	}
+	used := map[string]bool{}
+	ast.Inspect(f, func(n ast.Node) bool {
+		if se, ok := n.(*ast.SelectorExpr); ok {
+			if id, isID := se.X.(*ast.Ident); isID {
+				used[id.Name] = true
+			}
+		}
+		return true
+	})
+	type cut struct{ s, e int }
+	var cuts []cut
+	for _, im := range f.Imports {
+		path := strings.Trim(im.Path.Value, "\"")
+		nm := path[strings.LastIndex(path, "/")+1:]
+		if im.Name != nil {
+			nm = im.Name.Name
+		}
+		if nm == "_" || nm == "." || used[nm] {
+			continue
+		}
+		// module packages whose name differs from the last path element (mow.cli -> cli) are never
+		// dropped here: only a name that certainly is the package's
+		if strings.Contains(nm, ".") || strings.Contains(nm, "-") {
+			continue
+		}
+		cuts = append(cuts, cut{fset.Position(im.Pos()).Offset, fset.Position(im.End()).Offset})
+	}
+	if len(cuts) == 0 {
+		return b
+	}
+	sort.Slice(cuts, func(i, j int) bool { return cuts[i].s > cuts[j].s })
+	out := append([]byte(nil), b...)
+	for _, c := range cuts {
+		out = append(out[:c.s], out[c.e:]...)
+	}
+	return out
 }
 
 type lowered struct {
